@@ -32,7 +32,7 @@ CLAIMS["C05"] = {
     "technique": "static analysis: typestate dataflow over error_context_t (save/setjmp/restore/pop) with call-graph may_raise summaries, field-set sibling agreement, dominance and constant propagation in error_handler, restore wrappers recognised from the program (every path restores the context parameter), guard dominance on the unwind count, stack-effect abstract interpretation of every efun, must-consume path analysis of the apply family",
     "text": "All users of the error-recovery API are enumerated from the call graph; for each, the typestate automaton is run over the CFG with every call classified by an inter-procedural may-raise summary: "
             "no raising call while the context is registered but its jmp_buf unarmed, restore_context first on every recovery branch, pop_context on every exit, no re-raise into the same recovery point. "
-            "save/restore and push/pop field sets must agree and pop_control_stack must restore each saved register from its own field on every path (recovery pops a single frame), error_handler must reset its guards before every longjmp. Decides the recovery mechanism on all paths. Also decided: the value stack is unwound by a count that cannot be negative and protected-call wrappers unwind to the caller's level instead of popping the original argument count on the recovery branch (the callee may have dropped arguments: found by replay, fixed); every member of the apply family consumes its arguments on every return; every efun leaves the stack at its declared depth; the command-giver stack is not held across a raise. Values computed by the recovered evaluation are not decided.",
+            "save/restore and push/pop field sets must agree and pop_control_stack must restore each saved register from its own field on every path (recovery pops a single frame), error_handler must reset its guards before every longjmp. Decides the recovery mechanism on all paths. Also decided: the value stack is unwound by a count that cannot be negative and protected-call wrappers unwind to the caller's level instead of popping the original argument count on the recovery branch (the callee may have dropped arguments: found by replay, fixed); every member of the apply family consumes its arguments on every return; every efun leaves the stack at its declared depth; the command-giver stack is not held across a raise. error_handler() drops a pending `...` expansion count before any LPC code runs again (found by replay, fixed). Values computed by the recovered evaluation are not decided.",
     "design_ref": "DESIGN.md §5 C05",
 }
 
@@ -94,10 +94,10 @@ CLAIMS["C17"] = {
 }
 
 CLAIMS["C04"] = {
-    "technique": "static analysis: cycle-passes-test reachability on the interpreter dispatch loop, who-may-write on eval_cost and csp over all units, dominance of limit comparisons at every raw allocation/growth site (arrays, buffers, mapping nodes, strings), re-raise path analysis in do_catch, re-entrancy analysis (call-graph reachability of a writer between a store and its read-back) of the saved limit-error state",
+    "technique": "static analysis: cycle-passes-test reachability on the interpreter dispatch loop, who-may-write on eval_cost and csp over all units, dominance of limit comparisons at every raw allocation/growth site (arrays, buffers, mapping nodes, strings), re-raise path analysis in do_catch, re-entrancy analysis (call-graph reachability of a writer between a store and its read-back) of the saved limit-error state, dead-guard analysis of the budget cut on recovery branches reachable from LPC",
     "text": "Decides the limit mechanism on all paths and sites: no cycle through the interpreter's dispatch avoids the exact-zero eval-cost tick and nothing else does arithmetic on the counter; refills happen only at task boundaries (the LPC-callable efun is a recorded finding); "
             "both control-frame pushes are behind the call-depth test; do_catch re-raises both limit errors and keeps them uncatchable for enclosing catches; every raw array/buffer allocation, mapping node increment and string growth site in the driver is dominated by a comparison with its configured maximum. "
-            "The limit-error state kept across master::error_handler() is held in the activation, not in storage a nested error overwrites. That one tick does bounded work inside every efun, and total memory, are not decided.",
+            "The limit-error state kept across master::error_handler() is held in the activation, not in storage a nested error overwrites; protected calls reachable from LPC cut the renewed budget on their recovery branch under a condition that can hold there (error_handler() clears the limit state before every non-catch jump, so a test of it is dead). That one tick does bounded work inside every efun, and total memory, are not decided.",
     "design_ref": "DESIGN.md §5 C04",
 }
 
@@ -143,18 +143,18 @@ CLAIMS["C06"] = {
 }
 
 CLAIMS["C02"] = {
-    "technique": "static analysis: growth-site rule over every realloc in the compiler units, per-iteration weighted longest-path in budgeted lexer copy loops, must-pass-through of state release in epilog, call-graph reachability of fatal() from compile_file (context-sensitive for comparator arguments), representation-invariant rule on the locals table, reset-completeness of lexer statics (post-dominating resets, drain loops, constant propagation to every return), dominance of an index test inside the loop for growing-index stores (with extent arithmetic where the array has a declared size), report-then-copy reachability for size tests that only call lexerror/yyerror, constant-truth check of assignment conditions, guard dominance excluding -1 for signed division of source-text values, lock-step index-space check of rebased frame pointers, units-of-measure propagation (bytes vs element index) over the memory blocks, per-entry count pairing in the locals table",
+    "technique": "static analysis: growth-site rule over every realloc in the compiler units, per-iteration weighted longest-path in budgeted lexer copy loops, must-pass-through of state release in epilog, call-graph reachability of fatal() from compile_file (context-sensitive for comparator arguments), representation-invariant rule on the locals table, reset-completeness of lexer statics (post-dominating resets, drain loops, constant propagation to every return), dominance of an index test inside the loop for growing-index stores (with extent arithmetic where the array has a declared size), report-then-copy reachability for size tests that only call lexerror/yyerror, constant-truth check of assignment conditions, guard dominance excluding -1 for signed division of source-text values, lock-step index-space check of rebased frame pointers, units-of-measure propagation (bytes vs element index) over the memory blocks, per-entry count pairing in the locals table, stale-pointer typestate for pointers into a memory block across calls that can grow it (growth summaries over the call graph), reset-completeness scan of the compiler's file-scope state against a reviewed table, path completeness of the identifier clean-up",
     "text": "Decides structural necessary conditions of compiler safety and reusability for all source texts: every table reallocation really grows (or is an exact fit); lexer copy loops that spend a space budget never store more bytes than they charge and SAVEC stores are bounded; "
             "epilog releases lexer, scratchpad and locals on every return; errors are counted and block object creation; fatal() is reachable from compilation only via reviewed internal-inconsistency sites; "
-            "whoever drops a local's sem_value removes it from the live range. every lexer static written while yylex runs is reset per compilation, is a pure statistic, or is provably back at its initial value at each return of its only writer (two flags that leaked into the next file were found and fixed). The stuck re-entrancy flag after an escaping error is a recorded finding. Termination and full equality of the produced program with a fresh driver's (compiler-side state beyond the lexer) are not decided. Also decided for the lexer/preprocessor: an index that grows with the input is compared with a bound on every way into its store (and the bound fits the array's extent), a size test that only reports does not fall through into the copy it guards, no condition is an assignment of never-null pointer arithmetic, and #if arithmetic and constant folding never divide a signed value by a source-chosen -1 (INT_MIN / -1 traps; found in the folding code, replayed and fixed). Every entry of the locals table owns one count of its identifier (a redeclared local took an efun's name away for all later compiles: found, replayed, fixed) and indexed pops stay inside the function's part of the table; byte counts and element indexes of the memory blocks are never mixed.",
+            "whoever drops a local's sem_value removes it from the live range. every lexer static written while yylex runs is reset per compilation, is a pure statistic, or is provably back at its initial value at each return of its only writer (two flags that leaked into the next file were found and fixed). The stuck re-entrancy flag after an escaping error is a recorded finding. Termination and full equality of the produced program with a fresh driver's (compiler-side state beyond the lexer) are not decided. Also decided for the lexer/preprocessor: an index that grows with the input is compared with a bound on every way into its store (and the bound fits the array's extent), a size test that only reports does not fall through into the copy it guards, no condition is an assignment of never-null pointer arithmetic, and #if arithmetic and constant folding never divide a signed value by a source-chosen -1 (INT_MIN / -1 traps; found in the folding code, replayed and fixed). Every entry of the locals table owns one count of its identifier (a redeclared local took an efun's name away for all later compiles: found, replayed, fixed) and indexed pops stay inside the function's part of the table; byte counts and element indexes of the memory blocks are never mixed; a pointer into a table is not used after a call that may reallocate the table; every static of the compiler proper that a compilation writes is reset per compilation or is on the reviewed list with its reason (two real leaks found this way and fixed); free_unused_identifiers() resets its state on every path.",
     "design_ref": "DESIGN.md §5 C02",
 }
 
 CLAIMS["C01"] = {
-    "technique": "static analysis: clang's type-resolved format checker with injected format attributes over all units plus a literal-provenance rule, output-bound computation for every formatted write into a fixed char array, must-pass CHECK_TYPES analysis of the efun dispatch cases, stack-space check dominance for every value-stack push, saturating-length flow rule, LPC-integer index taint with range guards, stale-pointer typestate for mapping internals held across LPC callbacks, tag-domain abstract interpretation of every efun against the dispatcher's guarantees (argument slot tracking through sp arithmetic, per argument count), guard dominance excluding -1 for signed division of LPC numbers, positivity of V for every `x[V - K]` access, borrowed-value typestate for pointers into apply_ret_value (derived pointers, ownership idioms, callee summaries for lent parameters), boundary analysis of snprintf-family truncation tests, store-before-raise path rule for mapping node counts",
+    "technique": "static analysis: clang's type-resolved format checker with injected format attributes over all units plus a literal-provenance rule, output-bound computation for every formatted write into a fixed char array, must-pass CHECK_TYPES analysis of the efun dispatch cases, stack-space check dominance for every value-stack push, saturating-length flow rule, LPC-integer index taint with range guards, stale-pointer typestate for mapping internals held across LPC callbacks, tag-domain abstract interpretation of every efun against the dispatcher's guarantees (argument slot tracking through sp arithmetic, per argument count), guard dominance excluding -1 for signed division of LPC numbers, positivity of V for every `x[V - K]` access, borrowed-value typestate for pointers into apply_ret_value (derived pointers, ownership idioms, callee summaries for lent parameters), boundary analysis of snprintf-family truncation tests, store-before-raise path rule for mapping node counts, natural-loop pairing of count pass and fill pass with path-set comparison",
     "text": "Decides structural necessary conditions of memory safety for all programs at once, per site: ~900 reporter calls have literal or provably driver-literal formats with well-formed conversions; every sprintf/strcpy into a fixed buffer has a computed bound (LPC-controlled numbers at full range) or is reported undecided; "
             "each F_EFUNn dispatch is behind one CHECK_TYPES per fixed argument; every sp increment is behind a space check or a pop (73 unguarded push sites are recorded findings, so a new one is reported); MSTR_SIZE never reaches a copy/allocation length without its USHRT_MAX fallback; "
-            "subscripts and copy lengths derived from LPC integers are dominated by lower and upper bounds paired with the indexed container. mapping node/table pointers that stay live across an LPC callback belong to a mapping the callback cannot reach (private copy or proven single reference). Use-after-free in general, efun-internal pointer arithmetic, pc staying inside the bytecode are not decided. Every read of a pointer union member of an efun argument (213 efuns, per admissible argument count) happens under a tag set - from the dispatcher or from the efun's own tests - for which that member is a pointer (three efuns that used unchecked arguments as pointers were found, replayed and fixed); reads through slots the interpreter cannot resolve are counted, not claimed. Signed division/modulo of LPC integers is reached only with the divisor known not to be -1 (INT64_MIN / -1 killed the driver: found, replayed, fixed). Accesses of the form x[len - K] on script-supplied strings are reached only with len >= K (four under-reads fixed); pointers into apply_ret_value, and anything derived from them, are not used after a call that may store a new apply result, including through callees that make an apply of their own (one dangling save-file name in ed found and fixed).",
+            "subscripts and copy lengths derived from LPC integers are dominated by lower and upper bounds paired with the indexed container. mapping node/table pointers that stay live across an LPC callback belong to a mapping the callback cannot reach (private copy or proven single reference). Use-after-free in general, efun-internal pointer arithmetic, pc staying inside the bytecode are not decided. Every read of a pointer union member of an efun argument (213 efuns, per admissible argument count) happens under a tag set - from the dispatcher or from the efun's own tests - for which that member is a pointer (three efuns that used unchecked arguments as pointers were found, replayed and fixed); reads through slots the interpreter cannot resolve are counted, not claimed. Signed division/modulo of LPC integers is reached only with the divisor known not to be -1 (INT64_MIN / -1 killed the driver: found, replayed, fixed). Accesses of the form x[len - K] on script-supplied strings are reached only with len >= K (four under-reads fixed); pointers into apply_ret_value, and anything derived from them, are not used after a call that may store a new apply result, including through callees that make an apply of their own (one dangling save-file name in ed found and fixed). Where a loop counts, an allocation is sized by that count and a second loop over the same cursor fills it, every way round the fill loop is a way round the count loop or the fill loop is bounded by the count itself.",
     "design_ref": "DESIGN.md §5 C01",
 }
 
